@@ -138,7 +138,17 @@ class CipherState:
             if self.etm:
                 frag += self._mac(seq, ctype, rv, frag)
         elif sp.mode in ("GCM", "CCM"):
-            explicit = struct.pack("!Q", seq)
+            # RFC 5288 section 3 / RFC 6655: the 8-byte explicit part is the sender's choice, it only has to be unique per key -
+            # the sequence number (OpenSSL), a counter started anywhere, or random bytes
+            pol = getattr(self, "nonce_policy", "seq")
+            if pol == "random":
+                explicit = self.rng.randbytes(8)
+            elif pol == "from1":
+                explicit = struct.pack("!Q", seq + 1)
+            elif pol == "high":
+                explicit = struct.pack("!Q", (0xFEDCBA9876543210 + seq) & 0xFFFFFFFFFFFFFFFF)
+            else:
+                explicit = struct.pack("!Q", seq)
             if first_byte is not None:
                 explicit = bytes([first_byte]) + explicit[1:]       # RFC 5288: the explicit part is the sender's choice
             aad = struct.pack("!QBHH", seq, ctype, rv, len(data))
@@ -314,7 +324,7 @@ DEFAULT = {
     "version": TLS12, "suite": 0xC02F, "etm": False, "hs_secrets": True, "sid_len": 32, "exts": "typical",
     "abbreviated": False, "server_group": "one_each", "client_group": "one_each", "ccs13": True, "pad13": 0, "pad13_hs": 0,
     "tickets": 0, "ticket_pos": "before", "enc_flight_split": None, "offered": None, "keylog_label": "CLIENT_RANDOM",
-    "history": [("c", 100), ("s", 300)], "pad_blocks": 0, "sflight_records": None, "early_s": 0, "fin_first_byte": None, "master": None,
+    "history": [("c", 100), ("s", 300)], "pad_blocks": 0, "sflight_records": None, "early_s": 0, "fin_first_byte": None, "master": None, "explicit_nonce": None, "close_alerts": None, "trailing_other": None,
 }
 
 
@@ -398,6 +408,7 @@ class Connection:
         cw = CipherState(v, sp, km["client_key"], km["client_mac"], km["client_iv"], etm, rng)
         sw = CipherState(v, sp, km["server_key"], km["server_mac"], km["server_iv"], etm, rng)
         self.cw, self.sw = cw, sw
+        cw.nonce_policy = sw.nonce_policy = s.get("explicit_nonce") or "seq"
         rv_first = SSL30 if v == SSL30 else TLS10
         fin_len = 36 if v == SSL30 else 12
 
@@ -454,6 +465,15 @@ class Connection:
             w = cw if d == "c" else sw
             self.app[d].append(data)
             self.sends.append((d, [Rec(d, w.protect(CT_APP, data, pad_blocks=s["pad_blocks"]), "app", data)]))
+        for d in (s.get("trailing_other") or ()):
+            # a record of another content type (heartbeat, RFC 6520) as the last record of its direction
+            w = cw if d == "c" else sw
+            self.sends.append((d, [Rec(d, w.protect(24, b"\x01\x00\x04ping" + rng.randbytes(16)), "other", None)]))
+        for d in (s.get("close_alerts") or ()):
+            # closing alerts at the very end (close_notify from the first closer, the peer's answer): no data follows
+            w = cw if d == "c" else sw
+            body = b"\x01\x00"
+            self.sends.append((d, [Rec(d, w.protect(CT_ALERT, body), "alert", None)]))
 
     # -- TLS 1.3
     def _build13(self):
@@ -530,6 +550,12 @@ class Connection:
         if s["ticket_pos"] == "after" or (s["ticket_pos"] == "between" and len(hist) < 2):
             for _ in range(nt):
                 ticket()
+        for d in (s.get("trailing_other") or ()):
+            w = cap if d == "c" else sap
+            self.sends.append((d, [Rec(d, w.protect(24, b"\x01\x00\x04ping" + rng.randbytes(16), pad13=s["pad13"]), "other", None)]))
+        for d in (s.get("close_alerts") or ()):
+            w = cap if d == "c" else sap
+            self.sends.append((d, [Rec(d, w.protect(CT_ALERT, b"\x01\x00", pad13=s["pad13"]), "alert", None)]))
 
 
 def table_suites():
